@@ -197,7 +197,7 @@ func guardedByLoopVarLeq(e *Event, L *LoopCtx) Poly {
 }
 
 func c17Consumer(p *Prog, r *Report) {
-	r.Rule("C17.R4", "consumer agreement: the simulator numbers the same lines the calculator counts (non-empty batch lines, filtered where they are read) and '-lines a-b' executes exactly indices a-1 .. b-1 of them: no content-dependent skip in the dispatch loop", 4)
+	r.Rule("C17.R4", "consumer agreement: the simulator numbers the same lines the calculator counts (non-empty batch lines, filtered where they are read) and '-lines a-b' executes exactly indices a-1 .. b-1 of them: no content-dependent skip in the dispatch loop; the start index is int(text before the dash) − 1 for every a-b and a-end argument, the end line int(text after the dash) unless it is the word end, a plain count sets the end line, the value argument is consumed, the dispatcher receives (start, end, lines) in its parameter order", 12)
 	fi := p.Funcs["hermes2go.main"]
 	x := walked(p, "hermes2go.main")
 	if fi == nil || x == nil {
@@ -218,6 +218,9 @@ func c17Consumer(p *Prog, r *Report) {
 		}
 		call, ok := be.X.(*ast.CallExpr)
 		if !ok || types_ExprString(call.Fun) != "len" {
+			return true
+		}
+		if tv := info.Types[be.Y]; tv.Value == nil || tv.Value.String() != "0" {
 			return true
 		}
 		for _, s := range ifs.Body.List {
@@ -265,6 +268,7 @@ func c17Consumer(p *Prog, r *Report) {
 			r.Ob("end-index", p.Pos(e.Pos), t != nil && len(t.M) == 1 && t.C.Cmp(ratInt(1)) == 0, fmt.Sprintf("end line = %s (must be the last line number itself; the dispatch loop stops at index >= end)", e.Val))
 		}
 	}
+	c17LinesArg(p, r)
 	// (iii) dispatch filters
 	dx := walked(p, "hermes2go.doConcurrentBatchRun")
 	if dx == nil {
